@@ -290,7 +290,7 @@ func (idx *HNSWIndex) Add(vector VectorNode) error {
 
 	// If every existing vertex is soft-deleted there is nothing to link to; the new
 	// node becomes the entry point so that searches start from a live vertex
-	if uint64(len(idx.nodes)) == idx.deletedNodes.GetCardinality() {
+	if !idx.hasLiveNode() {
 		idx.entryPoint = id
 		idx.nodes[id] = node
 		idx.mu.Unlock()
@@ -309,12 +309,21 @@ func (idx *HNSWIndex) Add(vector VectorNode) error {
 	return nil
 }
 
+// hasLiveNode reports whether any vertex is not soft-deleted.
+// The caller MUST hold the lock.
+func (idx *HNSWIndex) hasLiveNode() bool {
+	for id := range idx.nodes {
+		if !idx.deletedNodes.Contains(id) {
+			return true
+		}
+	}
+	return false
+}
+
 // Remove performs soft delete using roaring bitmap.
 //
-// CONCURRENCY OPTIMIZATION:
-// - Uses read lock first (cheaper) to check if node exists
-// - Only acquires write lock for the actual bitmap modification
-// - Minimizes write lock contention
+// CONCURRENCY:
+// - Checks and marks under one write lock, so that a concurrent Flush or Remove cannot slip in between
 //
 // SOFT DELETE MECHANISM:
 // Instead of immediately removing (expensive O(n × M × L)),
@@ -328,14 +337,17 @@ func (idx *HNSWIndex) Remove(vector VectorNode) error {
 	id := vector.ID()
 
 	// ════════════════════════════════════════════════════════════════════════
-	// STEP 1: CHECK EXISTENCE (READ LOCK - CHEAPER)
+	// STEP 1: CHECK EXISTENCE
 	// ════════════════════════════════════════════════════════════════════════
-	idx.mu.RLock()
+	// Check and mark under one write lock: with the check under a read lock and the
+	// mark under a later write lock, a Flush in between left a tombstone for an ID that
+	// no longer exists, and two concurrent removers of one ID both succeeded
+	idx.mu.Lock()
+	defer idx.mu.Unlock()
 	_, exists := idx.nodes[id]
 	alreadyDeleted := idx.deletedNodes.Contains(id)
-	idx.mu.RUnlock()
 
-	// Fast-fail validation outside of write lock
+	// Fast-fail validation
 	if !exists {
 		return fmt.Errorf("node %d not found", id)
 	}
@@ -344,11 +356,9 @@ func (idx *HNSWIndex) Remove(vector VectorNode) error {
 	}
 
 	// ════════════════════════════════════════════════════════════════════════
-	// STEP 2: MARK AS DELETED (WRITE LOCK - ONLY FOR BITMAP UPDATE)
+	// STEP 2: MARK AS DELETED
 	// ════════════════════════════════════════════════════════════════════════
-	idx.mu.Lock()
 	idx.deletedNodes.Add(id)
-	idx.mu.Unlock()
 
 	return nil
 }
